@@ -77,7 +77,9 @@ CHECKS = {
                      "(d) end to end for one member (file, empty file, directory; optionally followed by a symbolic link to it): "
                      "source permission bits -> real _make_file_info -> reference-written archive -> real reader -> real _extract "
                      "post-pass on the filesystem model: chmod receives exactly the source's 12 permission bits, utime the stored "
-                     "FILETIME (only when defined), the link is re-created with its target and nothing else is stamped.",
+                     "FILETIME (only when defined), the link is re-created with its target and nothing else is stamped; "
+                     "(e) Worker._find_link_target stores a relative link's own text for every link place, link text and set of "
+                     "members archived before it (symbolic choices from tables).",
                 note="whole trees, real symlinks and syscalls, name handling on disk and the shutil/CLI front ends are outside; "
                      "float model = exact result + |error| <= half an ulp per binade (relaxed, sound over-approximation) with the "
                      "rule that doubles >= 2^53 are integers; the filesystem is the model of vf/harness/fakefs.py (validated "
